@@ -117,6 +117,44 @@ Inductive fcode :=
 | FNotFound            (* Client.ResourceNotFound *)
 | FServer.             (* Server: an exception inside process_request *)
 
+(** ** Documents as they are on the wire and the tree the parser hands to the protocol.
+    An element's content is a sequence of character data, elements, comments and processing instructions.
+    lxml (XMLParser( **self.parser_kwargs ), generated flags) drops the comments / PIs it is told to remove and
+    joins the character data around them; a node it keeps ends the element's .text and is a child ([XOther]).
+    Tails are not read by Spyne and are not part of [xnode]. *)
+Inductive dnode :=
+| DElt (ns name : text) (atts : list attr) (content : list dnode)
+| DText (t : text)
+| DComment
+| DPI.
+
+Fixpoint lead_text (rc rp : bool) (l : list dnode) : text :=
+  match l with
+  | DText t :: r => t ++ lead_text rc rp r
+  | DComment :: r => if rc then lead_text rc rp r else []
+  | DPI :: r => if rp then lead_text rc rp r else []
+  | _ => []
+  end.
+
+Fixpoint parse_doc (rc rp : bool) (d : dnode) : xnode :=
+  match d with
+  | DElt ns n a c =>
+      XElt ns n a (match lead_text rc rp c with [] => None | t => Some t end)
+           (flat_map (fun x => match x with
+                               | DElt _ _ _ _ => [parse_doc rc rp x]
+                               | DText _ => []
+                               | DComment => if rc then [] else [XOther]
+                               | DPI => if rp then [] else [XOther]
+                               end) c)
+  | _ => XOther
+  end.
+
+(** what create_in_document builds from the bytes of a request (and the Spyne client from those of a response) *)
+Definition parsed (d : dnode) : xnode := parse_doc xw_remove_comments xw_remove_pis d.
+
+(** what the document denotes for an XML Schema processor: comments and PIs are not part of it *)
+Definition denoted (d : dnode) : xnode := parse_doc true true d.
+
 (** how Soap11.deserialize matches a header block to a declared header class: by '{namespace}type_name'
     (the generated flag; matching by the local name alone would confuse same-named blocks of other namespaces) *)
 Definition hdr_match (ns name : text) (e : xnode) : bool :=
